@@ -6,6 +6,7 @@ CONSTANTS
   MaxArgs = 1
   Flags0 <- MCFlags0
   Int0 <- MCInt0
+  Argvs <- ArgvsBounded
   Emit <- EmitJson
 INVARIANTS TypeOK ReadingIsFunction RankBounded ForeignBitsKept PrePassOnlyPre NoPrePassNoPre IntFromLine NonOptionsUntouchedInOrder ArgvCompacted CompactPrefix
 PROPERTIES Terminates BoolTouchesOnlyMask OtherPassUntouched
